@@ -84,8 +84,8 @@ func (f *simFactory) ToDiscoveryClient() (discovery.CachedDiscoveryInterface, er
 
 type uncachedDiscovery struct{ *discovery.DiscoveryClient }
 
-func (uncachedDiscovery) Fresh() bool { return true }
-func (uncachedDiscovery) Invalidate() {}
+func (uncachedDiscovery) Fresh() bool                        { return true }
+func (uncachedDiscovery) Invalidate()                        {}
 func (f *simFactory) ToRESTMapper() (meta.RESTMapper, error) { return f.mapper, nil }
 
 type nsConfig struct {
